@@ -124,6 +124,35 @@ fn std_part(ctx: &Ctx, thorough: bool) {
             }
         }
     }
+    // descriptors with restricted access modes (read-only, write-only): what the kernel refuses
+    // stays refused - a region never claims a kind of mapping it did not get
+    for (mode, write_mode) in [("read-only", false), ("write-only", true)] {
+        let f0 = tempfile().unwrap();
+        f0.set_len(8192).unwrap();
+        let path = format!("/proc/self/fd/{}", f0.as_raw_fd());
+        let f = if write_mode { std::fs::OpenOptions::new().write(true).open(&path) } else { std::fs::OpenOptions::new().read(true).open(&path) };
+        let f = match f {
+            Ok(f) => f,
+            Err(_) => continue,
+        };
+        for &prot in &prots {
+            for &flags in &[libc::MAP_SHARED, libc::MAP_PRIVATE, libc::MAP_SHARED | libc::MAP_NORESERVE, libc::MAP_PRIVATE | libc::MAP_NORESERVE] {
+                for (off, size) in [(0u64, 4096usize), (4096, 4096), (0, 100), (0, 8192)] {
+                    ctx.case(true);
+                    let fo = FileOffset::new(f.try_clone().unwrap(), off);
+                    let rp = || json!({"api": "MmapRegion::build", "descriptor": mode, "offset": off, "size": size, "prot": prot, "flags": flags});
+                    let (res, log) = record_maps(|| MmapRegion::<()>::build(Some(fo), size, prot, flags));
+                    judge_std(ctx, "MmapRegion::build(restricted descriptor)", res, &log, false, size, prot, flags, Some((f.as_raw_fd(), off)), &rp);
+                }
+            }
+        }
+        // the convenience constructors ask for a shared read-write mapping
+        ctx.case(true);
+        let fo = FileOffset::new(f.try_clone().unwrap(), 0);
+        let rp = || json!({"api": "MmapRegion::from_file", "descriptor": mode});
+        let (res, log) = record_maps(|| MmapRegion::<()>::from_file(fo, 4096));
+        judge_std(ctx, "MmapRegion::from_file(restricted descriptor)", res, &log, false, 4096, libc::PROT_READ | libc::PROT_WRITE, libc::MAP_NORESERVE | libc::MAP_SHARED, Some((f.as_raw_fd(), 0)), &rp);
+    }
     // anonymous requests
     for &size in &[0usize, 1, 4096, 4097, 1 << 30, usize::MAX, isize::MAX as usize] {
         for &flags in &flag_words {
@@ -623,7 +652,7 @@ fn file_histories(ctx: &Ctx) {
 
 pub fn run(tier: Tier, replay: Option<String>) -> i32 {
     let ctx = crate::new_ctx("C15", tier, "fault_enumeration", &replay);
-    ctx.set_rule("Unix build: file lengths {0,1,4095,4096,4097,8192,12288} x offsets {0,1,4096,len-1,len,len+1,2^64-4096,2^64-1} x sizes {0,1,4096,rest-1,rest,rest+1,isize::MAX,usize::MAX} x all 32 subsets of {PRIVATE,SHARED,ANONYMOUS,NORESERVE,FIXED} (x 3 protections in the thorough tier) through MmapRegion::build / from_file / GuestRegionMmap::from_range and the builder with the hugetlbfs hint {unset, false, true}, anonymous requests, injected mmap failure, build_raw with pointers at page offset {0,1,8,2048,4095} with and without a backing file and for 58 flag words (all subsets of the basic bits plus huge-page sizes, populate, lock, stack, growsdown, nonblock, sync and unknown high bits: the pointer rule does not depend on the flags), guest bases within +-2 of the top of the address space, byte-by-byte coherence of shared file regions in both directions. Xen build: all 256 low mmap-flag bytes plus every single high bit (alone and combined with GRANT) x {no file, device file at offset 0, at offset 4096} x sizes (incl. past the end of the file for plain file mappings) x hugetlbfs hint {unset, false, true} x injected {none, ioctl failure, mmap failure} on the emulated gntdev/privcmd. Both builds: every sequence of three file lengths out of {0,4096,8192,12288} with every size requested after each change through one FileOffset lineage (the predicate refers to the file as it is now), and every length query of a valid construction answered with EIO / length 0 / length 2^40 (one deviation per run): whatever the outcome, nothing may stay mapped. Oracle: the statement's acceptance predicate (must fail: MAP_FIXED - which must not even reach the kernel -, overflowing or past-EOF file range, misaligned raw pointer, end beyond the address space, unknown/contradictory Xen type bits, missing file or non-zero offset for foreign/grant; safe requests the OS refuses may fail too); on success the attributes echo the request and exactly one mapping with the requested arguments was made; on failure the interposed mapping log (and the device) show nothing left mapped. One case = one request; all non-trivial; distinct by construction.");
+    ctx.set_rule("Unix build: file lengths {0,1,4095,4096,4097,8192,12288} x offsets {0,1,4096,len-1,len,len+1,2^64-4096,2^64-1} x sizes {0,1,4096,rest-1,rest,rest+1,isize::MAX,usize::MAX} x all 32 subsets of {PRIVATE,SHARED,ANONYMOUS,NORESERVE,FIXED} (x 3 protections in the thorough tier) through MmapRegion::build / from_file / GuestRegionMmap::from_range and the builder with the hugetlbfs hint {unset, false, true}, descriptors opened read-only and write-only x 3 protections x shared/private (a request the kernel refuses stays refused; an accepted one made exactly the mapping it reports), anonymous requests, injected mmap failure, build_raw with pointers at page offset {0,1,8,2048,4095} with and without a backing file and for 58 flag words (all subsets of the basic bits plus huge-page sizes, populate, lock, stack, growsdown, nonblock, sync and unknown high bits: the pointer rule does not depend on the flags), guest bases within +-2 of the top of the address space, byte-by-byte coherence of shared file regions in both directions. Xen build: all 256 low mmap-flag bytes plus every single high bit (alone and combined with GRANT) x {no file, device file at offset 0, at offset 4096} x sizes (incl. past the end of the file for plain file mappings) x hugetlbfs hint {unset, false, true} x injected {none, ioctl failure, mmap failure} on the emulated gntdev/privcmd. Both builds: every sequence of three file lengths out of {0,4096,8192,12288} with every size requested after each change through one FileOffset lineage (the predicate refers to the file as it is now), and every length query of a valid construction answered with EIO / length 0 / length 2^40 (one deviation per run): whatever the outcome, nothing may stay mapped. Oracle: the statement's acceptance predicate (must fail: MAP_FIXED - which must not even reach the kernel -, overflowing or past-EOF file range, misaligned raw pointer, end beyond the address space, unknown/contradictory Xen type bits, missing file or non-zero offset for foreign/grant; safe requests the OS refuses may fail too); on success the attributes echo the request and exactly one mapping with the requested arguments was made; on failure the interposed mapping log (and the device) show nothing left mapped. One case = one request; all non-trivial; distinct by construction.");
     ctx.assume("mmap/munmap/ioctl/lseek are observed and faulted through link-time interposition; gntdev/privcmd are emulated");
     if ctx.replay_of.is_some() {
         println!("replay: deterministic enumeration; re-running it");
